@@ -16,9 +16,9 @@ import (
 )
 
 type envInformator struct {
-	key            []byte
-	salt, sid      int64
-	seq            int32
+	key       []byte
+	salt, sid int64
+	seq       int32
 }
 
 func (i *envInformator) GetSessionID() int64  { return i.sid }
@@ -68,7 +68,7 @@ func envReceive(pkt, key []byte) (o envOutcome) {
 
 func flipBit(b []byte, lo, hi int, rng *rand.Rand) ([]byte, int) {
 	out := append([]byte{}, b...)
-	pos := (lo + rng.Intn(hi-lo)) * 8 + rng.Intn(8)
+	pos := (lo+rng.Intn(hi-lo))*8 + rng.Intn(8)
 	out[pos/8] ^= 1 << uint(pos%8)
 	return out, pos
 }
